@@ -689,6 +689,7 @@ func runC18(c *core.Ctx) {
 	classes = append(classes, class{"cell", c18Filter(c, c18CellCatalogue(thorough), false), c18Opts{rotations: true, containment: true, libFan: true}})
 	classes = append(classes, class{"sliver", c18Filter(c, c18SliverCatalogue(thorough), true), c18Opts{rotations: true, containment: true, libFan: true}})
 	classes = append(classes, class{"longedge", c18Filter(c, c18LongEdgeCatalogue(thorough), true), c18Opts{rotations: true, containment: true, libFan: true}})
+	classes = append(classes, class{"band", c18Filter(c, c18BandCatalogue(thorough), true), c18Opts{rotations: true, containment: true, libFan: true}})
 
 	// P-deg triangles: one representative per cyclic class and orientation is
 	// (i<j<k); the reversal and all rotations are produced by checkLoop, which
